@@ -27,6 +27,10 @@ def cond_for(rng, kind, child_keys):
     t = {"map": dict, "list": list, "int": int, "str": str}[kind]
     if rng.random() < 0.8:
         leaves.append(Value.dtype.equal_to(t) if rng.random() < 0.7 else Value.is_instance(t))
+    if rng.random() < 0.08:
+        # a type-like condition on a type that has no name in the library's table (tuple, NoneType), first or not
+        extra = Value.dtype.equal_to(rng.choice([tuple, type(None)])) if rng.random() < 0.6 else Value.dtype.in_([tuple, int])
+        leaves.insert(rng.choice([0, len(leaves)]), extra)
     if kind in ("list", "str") and rng.random() < 0.4:
         leaves.append(Value.length.equal_to(rng.randint(0, 3)) if rng.random() < 0.5 else Value.length.in_([1, 2]))
     if kind in ("int", "str") and rng.random() < 0.4:
@@ -108,13 +112,14 @@ def make_schema(rng):
     import copy as _copy
     for parts, kind, child_keys in nodes:
         cond = cond_for(rng, kind, child_keys)
-        if rng.random() < 0.35:
+        cj_out, cj = outcome_of(lambda: cond.to_json_like())      # (types without a name cannot be written as specs)
+        if cj is not None and rng.random() < 0.35:
             # the rule comes from a SPEC with a doc block in one of the accepted shapes: the tree shows the block as
             # Rule.from_spec normalises it (Grammar.tla NormDoc)
             shape = _copy.deepcopy(rng.choice(gd.DOC_SHAPES))
             pspec = [{"type": "map_value"} if isinstance(x, MapValue) else {"type": "list_value"} if isinstance(x, ListValue) else x
                      for x in parts]
-            r = valida.Rule.from_spec({"path": pspec, "condition": cond.to_json_like(), "doc": _copy.deepcopy(shape)})
+            r = valida.Rule.from_spec({"path": pspec, "condition": cj, "doc": _copy.deepcopy(shape)})
             docspecs[id(r)] = shape
         else:
             r = valida.Rule(path=valida.DataPath(*parts), condition=cond, doc=make_doc(rng))
